@@ -469,7 +469,9 @@ const WMO_ENTRIES: &[&str] = &["parse_wmo", "ParsedWmo accessors", "WmoParser::p
 
 pub fn formats() -> Vec<FormatDef> {
     vec![
-        FormatDef { name: "wmo-root", entries: WMO_ENTRIES, seeds: root_seeds, drive: wmo_drive, cipher: None, havoc_scale: 1.0, max_field_offsets: (600, 2500) },
-        FormatDef { name: "wmo-group", entries: WMO_ENTRIES, seeds: group_seeds, drive: wmo_drive, cipher: None, havoc_scale: 1.0, max_field_offsets: (600, 2500) },
+        FormatDef { name: "wmo-root",
+            family: "wmo", entries: WMO_ENTRIES, seeds: root_seeds, drive: wmo_drive, cipher: None, havoc_scale: 1.0, max_field_offsets: (600, 2500) },
+        FormatDef { name: "wmo-group",
+            family: "wmo", entries: WMO_ENTRIES, seeds: group_seeds, drive: wmo_drive, cipher: None, havoc_scale: 1.0, max_field_offsets: (600, 2500) },
     ]
 }
